@@ -73,11 +73,29 @@ def sectionOrders (version sect : String) : Option (String × List (String × Li
 def ordersGet (rows : List (String × List String)) (m : Str) : Option String :=
   rows.foldl (fun acc r => if r.2.any (fun x => x.toList == m) then some r.1 else acc) none
 
-/-- `get_section_order_function(section, version)(mnemonic)`, and equally the `orders.get(name, default_order)`
-of `SectionParser` (the two pieces of source are the same code).  `keyError`: version or section absent from
+/-- the two-step lookup both sides use since the repair of the case-variant defect:
+`orders.get(mnemonic, orders.get(mnemonic.upper(), default_order))` without the default -/
+def ordersGet2 (rows : List (String × List String)) (m : Str) : Option String :=
+  match ordersGet rows m with
+  | some s => some s
+  | none => ordersGet rows (upper m)
+
+/-- `get_section_order_function(section, version)(mnemonic)`:
+`orders.get(mnemonic, orders.get(mnemonic.upper(), default_order))`, and equally the lookup of
+`SectionParser.metadata` (the two pieces of source are the same code).  `keyError`: version or section absent from
 the table; `typeError`: the table holds a string that is neither "value:descr" nor "descr:value"
 (the formatter function is then `None`). -/
 def orderOf (version sect : String) (m : Str) : Except Err Order :=
+  match sectionOrders version sect with
+  | none => .error .keyError
+  | some (dflt, rows) =>
+    match parseOrder ((ordersGet2 rows m).getD dflt) with
+    | some o => .ok o
+    | none => .error .typeError
+
+/-- the lookup BEFORE the repair (exact key only, `orders.get(mnemonic, default_order)`); kept to document the
+defect `Null` / `mnemonic_case='upper'` (theorem `C03_counterexample_case_variant`) -/
+def orderOfOld (version sect : String) (m : Str) : Except Err Order :=
   match sectionOrders version sect with
   | none => .error .keyError
   | some (dflt, rows) =>
@@ -262,7 +280,8 @@ def stripBrackets (x : Str) : Str :=
   let x := strip x
   if isBracketed x then (x.drop 1).dropLast else x
 
-/-- `SectionParser.__init__` (reader.py:804-815) + `self.orders.get(name, self.default_order)` of `metadata`:
+/-- `SectionParser.__init__` (reader.py:804-815) + the lookup of `metadata`
+`self.orders.get(name, self.orders.get(name.upper(), self.default_order))`:
 `defs[self.version]` is evaluated for every title; an unknown title keeps "value:descr" and `{}`;
 a ~V/~W title whose section is missing from the table leaves `self.orders` unset (AttributeError). -/
 def readerOrderOf (version : String) (kind : SecName) (name : Str) : Except Err Order :=
@@ -273,7 +292,7 @@ def readerOrderOf (version : String) (kind : SecName) (name : Str) : Except Err 
     match sectionOrders version (secKey kind) with
     | none => .error .keyError
     | some (dflt, rows) =>
-      match parseOrder ((ordersGet rows name).getD dflt) with
+      match parseOrder ((ordersGet2 rows name).getD dflt) with
       | some o => .ok o
       | none => .error .typeError
 
